@@ -42,7 +42,8 @@ def r1_scope(idx, r):
         ok = ok and upd
     r.require(ok, "traversal", hp, msg="both directions must visit the object, everything beneath it (with materials, deep) and then every collected parameter definition")
     init = sr.methods.get("__init__")
-    r.require(any(s.chain == "self.paramsToApply" and "paramsToApply" in norm(s.value) for s in iter_stores(init.node)), "keep-set-stored", init, msg="the keep-set must be remembered")
+    env_init = single_assign_env(init.node)
+    r.require(any(s.chain == "self.paramsToApply" and s.value is not None and "paramsToApply" in norm(propagate(s.value, env_init)) for s in iter_stores(init.node)), "keep-set-stored", init, msg="the keep-set must be remembered")
     rs = idx.cls("armi.reactor.composites.ArmiObject").resolve("retainState")
     if rs is not None:
         r.require(any(isinstance(n, ast.Return) and isinstance(n.value, ast.Call) and call_attr(n.value) == "StateRetainer" and norm(n.value.args[0]) == "self" for n in walk_local(rs.node)), "retainState", rs,
@@ -113,7 +114,26 @@ def r2_push_pop(idx, r):
                 if x.stmt not in stmts:
                     stmts.append(x.stmt)
             if not stmts:
-                r.violate(key + ":pops", rb, f"restoreBackup does not unpack {fld}")
+                # the same pop written field by field: `saved = self.<fld>; self.a = saved[0]; ...; self.<fld> = saved[-1]` (any temporaries)
+                envr = single_assign_env(rb.node)
+                bypos = {}
+                for x in iter_stores(rb.node):
+                    if x.kind != "assign" or not (x.chain or "").startswith("self.") or x.value is None:
+                        continue
+                    v = propagate(x.value, envr)
+                    if isinstance(v, ast.Subscript) and norm(v.value) == fld:
+                        try:
+                            k_ = ast.literal_eval(v.slice)
+                        except Exception:
+                            continue
+                        if isinstance(k_, int):
+                            bypos.setdefault(k_ % len(saved), []).append(x.chain)
+                if not bypos:
+                    r.violate(key + ":pops", rb, f"restoreBackup does not unpack {fld}")
+                    continue
+                tg = [(bypos.get(i_) or ["<not restored>"])[0] for i_ in range(len(saved))]
+                okpos = all(len(bypos.get(i_, [])) == 1 for i_ in range(len(saved)) if saved[i_].startswith("self.")) and all(t == sv for t, sv in zip(tg, saved) if sv.startswith("self."))
+                r.require(okpos, key + f":pop-order@{'+'.join(tg)}", rb, msg=f"saved {saved} but restored into {tg}: positions must correspond and the previous backup must be re-installed")
                 continue
             for st in stmts:
                 tg = [norm(e) for e in st.targets[0].elts]
